@@ -692,6 +692,14 @@ void ProtoRun::run() {
     armed[0].on = armed[1].on = false; pending_gap[0] = pending_gap[1] = false; swap_pending[0] = swap_pending[1] = false;
     next_honest[0] = next_honest[1] = 0; ccs_emitted[0] = ccs_emitted[1] = false;
     w.pc.max_early_data = (int) plan.get("early");
+    if (plan.get("resume") && plan.get("tkcut") > 0 && w.sid) {
+        // the client (or whoever replays its ClientHello) presents only the first N bytes of the RFC 5077 ticket it was issued:
+        // key name intact, everything behind it cut short
+        int idl = 0, tl = 0, hp = 0; unsigned int cid = 0;
+        vsim_sid_info((struct sslSessionId *) w.sid, &idl, &tl, &hp, &cid);
+        int n = (int) plan.get("tkcut");
+        if (tl > 0 && n < tl) { vsim_sid_set_ticket_len((struct sslSessionId *) w.sid, n); obs.counters["fault.ticket_cut_short"]++; }
+    }
     if (!w.connect(plan.get("resume") != 0)) { setup_failed = true; setup_detail = "connect failed cli=" + std::to_string(w.cli ? w.cli->create_rc : 0) + " srv=" + std::to_string(w.srv ? w.srv->create_rc : 0); g_q = nullptr; return; }
     if (on_api) { w.cli->on_api = on_api; w.srv->on_api = on_api; }
     split = (int) plan.get("split");
